@@ -120,3 +120,78 @@ Theorem rejections_are_pms :
   /\ (forall keep dest dirm, plan_dirs keep dest dirm [] = inr (E "missing")).
 Proof. exact rejections_are_pms_proof. Qed.
 Print Assumptions rejections_are_pms.
+
+(* ---- recursive installs, domo, dohtml, modes ---- *)
+
+(* doins -r / dodoc -r: below <dest> the image is exactly the source trees of the directory
+   arguments (induction over the os.walk listing: every directory, every symlink kept as a
+   link, every file with the requested mode) followed by the file arguments; dodoc needs the
+   EAPI gate.  [recursive_entries] is the PMS reference of Spec_C33. *)
+Theorem placement_is_pms_recursive : forall sl g c mode pos l,
+  c_insmode c = Some mode ->
+  recursive_entries sl (comps (c_dest c)) (c_dirmode c) mode pos = Some l ->
+  let acts := base_action (c_dest c) :: from_dirs c (dirs_of pos) ++ install_basenames c (files_of pos) in
+  map action_entry acts = Some (comps (c_dest c), PDir None) :: map Some l
+  /\ plan_doins c true pos = inl acts
+  /\ (forall r, dirs_of pos <> [] -> r && g_dodoc_r g = true -> plan_dodoc g c r pos = inl acts).
+Proof. exact recursive_placement_proof. Qed.
+Print Assumptions placement_is_pms_recursive.
+
+(* domo: <lang>.mo goes to <dest>/<lang>/LC_MESSAGES/<PN>.mo (directory created) *)
+Theorem placement_is_pms_domo : forall c pn x f lang mode,
+  c_insmode c = Some mode -> goodb (pn ++ lit ".mo") ->
+  pms_domo_lang (basename x) = Some lang ->
+  map action_entry (domo_plan c pn [(x, SFile f)])
+  = [Some (comps (c_dest c) ++ [lang; lit "LC_MESSAGES"], PDir (c_dirmode c));
+     action_entry (AInstall f (under (c_dest c) (join_sl [lang; lit "LC_MESSAGES"; pn ++ lit ".mo"])) (Some mode))]
+  /\ key (under (c_dest c) (join_sl [lang; lit "LC_MESSAGES"; pn ++ lit ".mo"]))
+     = comps (c_dest c) ++ [lang; lit "LC_MESSAGES"; pn ++ lit ".mo"].
+Proof. exact domo_placement_proof. Qed.
+Print Assumptions placement_is_pms_domo.
+
+(* ... where <dest> is DESTTREE/share/locale while DESTTREE exists and /usr/share/locale from
+   EAPI 7 on (table obligation over the regenerated wrapper and gate tables) *)
+Theorem domo_dest_is_pms :
+  (forall g v, dest_of g "domo" v = Some (if g_has_desttree g then v_desttree v ++ lit "/share/locale"
+                                          else lit "/usr/share/locale"))
+  /\ forallb (fun e => match gates_of e with
+                       | Some g => Bool.eqb (negb (g_has_desttree g)) (pms_domo_ignores_into (decimal e))
+                       | None => false end) numbered_eapis = true.
+Proof. exact domo_dest_is_pms_proof. Qed.
+Print Assumptions domo_dest_is_pms.
+
+(* dohtml without directory arguments (outside the known class dohtml-recursive-unfiltered):
+   exactly the arguments allowed by extension (defaults or -a, plus -A) or by -f are installed,
+   below <dest>/<-p prefix> *)
+Theorem placement_is_pms_dohtml : forall dest mode dirm o pos l,
+  dirs_of pos = [] ->
+  (forall a, In a pos -> pms_html_ok o (basename (fst a)) <> None) ->
+  flat_files (comps (dest ++ SL :: h_p o)) mode
+    (filter (fun a => match pms_html_ok o (basename (fst a)) with Some true => true | _ => false end) pos) = Some l ->
+  exists acts, plan_dohtml dest (Some mode) dirm o pos = inl (base_action (join2 dest (lstrip_sl (h_p o))) :: acts)
+               /\ map action_entry acts = map Some l.
+Proof. exact dohtml_placement_proof. Qed.
+Print Assumptions placement_is_pms_dohtml.
+
+(* modes: the fixed modes of PMS, and insopts/exeopts/libopts/diropts for the others *)
+Theorem modes_are_pms : forall g v,
+  (fst_mode (modes_of g "dobin" v) = Some (Some 493%N) /\ fst_mode (modes_of g "dosbin" v) = Some (Some 493%N)
+   /\ fst_mode (modes_of g "dolib.so" v) = Some (Some 493%N) /\ fst_mode (modes_of g "dolib.a" v) = Some (Some 420%N)
+   /\ fst_mode (modes_of g "dodoc" v) = Some (Some 420%N) /\ fst_mode (modes_of g "doinfo" v) = Some (Some 420%N)
+   /\ fst_mode (modes_of g "doman" v) = Some (Some 420%N) /\ fst_mode (modes_of g "dohtml" v) = Some (Some 420%N)
+   /\ fst_mode (modes_of g "domo" v) = Some (Some 420%N))
+  /\ (forall m1 m2, install_mode (Some (v_insoptions v)) = Some (Some m1) ->
+                    install_mode (Some (v_diroptions v)) = Some (Some m2) ->
+                    modes_of g "doins" v = inl (Some m1, Some m2))
+  /\ (forall m, install_mode (Some (v_exeoptions v)) = Some (Some m) -> modes_of g "doexe" v = inl (Some m, None))
+  /\ (forall m, install_mode (Some (v_liboptions v)) = Some (Some m) -> modes_of g "dolib" v = inl (Some m, None))
+  /\ (forall m, install_mode (Some (v_diroptions v)) = Some (Some m) ->
+        modes_of g "dodir" v = inl (None, Some m) /\ modes_of g "keepdir" v = inl (None, Some m)).
+Proof. exact modes_are_pms_proof. Qed.
+Print Assumptions modes_are_pms.
+
+(* an option string "-m<octal digits>" asks for exactly that mode *)
+Theorem install_mode_dash_m : forall ds m,
+  ds <> [] -> nosep 32 ds -> octal ds = Some m -> install_mode (Some (lit "-m" ++ ds)) = Some (Some m).
+Proof. exact install_mode_dash_m_proof. Qed.
+Print Assumptions install_mode_dash_m.
